@@ -29,6 +29,9 @@ OPNAMES = None
 
 
 # ties between the function bodies translated from the Rust source on every run (Gen/Fns.lean) and the hand-written models
+THEOREM_MODULES.append("Yarel.Props.FnsTie.VmSteps")
+REQUIRED_THEOREMS += ["vm_get_local_effect", "vm_get_local_panics", "vm_set_local_effect", "vm_jump_effect", "vm_jump_if_false_effect", "vm_loop_effect",
+                      "vm_equal_effect", "vm_binary_op_numbers", "vm_binary_op_type_error", "jump_roundtrip", "loop_roundtrip"]
 THEOREM_MODULES.append("Yarel.Props.FnsTie.Compiler")
 REQUIRED_THEOREMS += ['patch_jump_tie', 'emit_loop_tie', 'patch_offset_at_tie']
 
